@@ -75,6 +75,33 @@ var builtinUnits = []*schema.UnitsDefinition{
 // starting with a digit is ambiguous with a count by construction and is outside wf).
 var unitNamePool = []string{"a", "ab", "abc", "b", "m", "ms", "s", "k", "kk", "x.y", "u+", "(p)", "q*", "[z]", "w|v", "%", "$", "^t", "µ"}
 
+// unicodeNameDefs: names that start with / contain Unicode white space (NBSP, NEL, U+3000, U+2003, U+2028, U+1680,
+// U+202F) but do not END in it: unambiguous in the sense of the model's names_unambiguous, so they must round-trip.
+var unicodeNameDefs = []unitsD{
+	{base: unitD{"\u00a0x", "x\u00a0y", "ex\u3000long", "ex\u2003longs"},
+		mults: map[int64]unitD{60: {"m\u0085n", "m\u0085ns", "\u2028min", "\u2028mins"}, 3600: {"h", "hs", "hour\u00a0s", "\u1680hours"}}},
+	{base: unitD{"\u3000b", "\u3000bs", "b\u00a0\u00a0b", "b\u202fbs"},
+		mults: map[int64]unitD{1000: {"k\u00a0\u00a0k", "kk", "\u0085kilo", "\u0085kilos"}}},
+}
+
+// d73TrailWitnesses: names ENDING in white space - ASCII (Coq w_trail), NBSP (Coq w_trail_nbsp), U+3000 / U+2028 / NEL
+var d73TrailWitnesses = []unitsD{
+	{base: unitD{"x\u00a0", "x\u00a0", "ex", "exes"}, mults: map[int64]unitD{}},
+	{base: unitD{"s ", "s ", "second", "seconds"}, mults: map[int64]unitD{}},
+	{base: unitD{"b", "bs", "bee\u3000", "bees\u2028"}, mults: map[int64]unitD{60: {"m\u0085", "m\u0085", "min", "mins"}}},
+}
+
+// unicodeTrimCorpus: the texts run by hand against UnitsDefinition.ParseInt of the seconds set (work package s8u):
+// outer Unicode white space is trimmed, inner is refused, \v is trimmed outside and refused inside (\f is in \s),
+// invalid UTF-8 (a lone 0xA0 / 0x85 / 0xC2, a truncated E2 80) and non-White_Space look-alikes are never trimmed
+var unicodeTrimCorpus = []string{
+	"\u00a05\u00a0", "\u00855s", "\u30005m\u3000", "\u20035m\u2003", "\u20285\u2028", "\u16805", "\u202f5\u205f",
+	"5\u00a0s", "5\u0085s", "5\u3000m", "5\u2003m", "5\u2028s", "5m\u00a030s",
+	"\v5s\v", "5\vs", "5m\v30s", "\f5s", "5\fs",
+	"\xa05", "5\xa0", "\x855", "5\x85", "5\xc2", "\xc25", "\xe2\x805", "5\xe2\x80",
+	"\u00a0", "\u3000\u2003", " \t\u0085", "\xa0", "\u200b5", "\ufeff5", "\u180e5",
+}
+
 func genUnits(r *Rng) unitsD {
 	// two units sharing a name make the definition inherently ambiguous ("1a" cannot denote
 	// two different amounts), so every name is used by at most one unit
@@ -330,6 +357,9 @@ func init() {
 			for i := 0; i < nGen; i++ {
 				defs = append(defs, genUnits(r))
 			}
+			// definitions whose names START WITH or CONTAIN Unicode white space (matched literally, they round-trip);
+			// appended last so that the cases of the definitions above stay what they were
+			defs = append(defs, unicodeNameDefs...)
 			for _, d := range defs {
 				// powers of ten, multiplier boundaries +-1, random 63-bit values
 				p := int64(1)
@@ -380,6 +410,29 @@ func init() {
 					// a look-alike glued to a well-formed string, and one followed by a declared name
 					emit(unserCase(d, pick(r, numberLookalikes)+pick(r, []string{d.base.ss, d.base.lp, " " + d.base.sp})))
 					emit(unserCase(d, genWellFormed(r, d)+pick(r, numberLookalikes)))
+				}
+			}
+			// ---- strings.TrimSpace trims UNICODE white space, the grammar's \s is ASCII-only ----
+			// the cases confirmed against the SDK by hand (work package s8u), then for every definition the blank texts,
+			// the padded forms (ASCII / Unicode / not-trimmed look-alikes) and white space between count and unit
+			for _, s := range unicodeTrimCorpus {
+				emit(unserCase(secs, s))
+				emit(parseCase(secs, s))
+			}
+			for _, d := range defs {
+				for _, s := range unitBlankAndPadded(d) {
+					emit(unserCase(d, s))
+				}
+			}
+			// D73 witnesses: names that END in white space (ASCII: the model's w_trail; Unicode: w_trail_nbsp).  The
+			// formatted text loses its end to TrimSpace and is refused - in the model (C16_roundtrip_unicode_trail_refuted)
+			// and in the SDK alike; known finding D73 (caller-supplied ambiguous names), class predicate c16_ambiguous_names
+			for _, d := range d73TrailWitnesses {
+				for _, n := range []int64{0, 1, 5, 59, 60, 61, 65, 3600} {
+					emit(fmtIntCase(d, n))
+				}
+				for _, s := range []string{"5" + d.base.ss, "5" + d.base.sp + " ", " 5" + d.base.sp, "5 " + d.base.lp, "5" + d.base.lp + "\u00a0"} {
+					emit(parseCase(d, s))
 				}
 			}
 		},
